@@ -68,8 +68,8 @@ PROPS = {
         "level": "proof",
         "lean_modules": ["RaftVerif.Properties.C01", "RaftVerif.Properties.C02", "RaftVerif.Properties.C06"],
         "engines": [E4("static"), E4("crash", 30, 300), E4D(), E3_AE],
-        "explanation": "PARTIAL proof. Machine-checked: node-local apply order (strictly increasing, own log, at most the commit index), election safety for all reachable cluster states (C02), the handler-level log-matching theorems (C06), vote restriction (C08), commit rule (C04), log crash recovery (C12). NOT proved: the cluster-level induction for leader completeness / one operation per index across replicas (DESIGN.md section 7), which is stated and tied by exploration only. Tie and search: " + CLUSTER_NOTE + "; every Apply call of every incarnation is recorded and compared (term and bytes per index, order per state machine instance).",
-        "assumptions": ["static membership (membership changes are C09)", "goroutines spawned by a section prepare their request before the node's next election section (DESIGN.md S26)"],
+        "explanation": "Full proof on the replication-layer cluster model (Model/Repl.lean; static membership, no compaction): C01_state_machine_safety — for every reachable state, every later state and any two nodes, the committed prefixes are comparable (so no two state machines, in any incarnation, see different operations at one index); proved by a 23-field inductive invariant (Proofs/ReplInv.lean, ReplSteps1-4.lean, ReplSafety.lean: log matching, leader completeness through dead positions, vote restriction, commit rule) over unboundedly many nodes, terms, entries, message loss/delay/reordering/duplication and crashes; non-vacuity by a concrete reachable committing run (Proofs/ReplExample.lean). Node level: apply order (strictly increasing, own log, at most the commit index). The model's steps are tied to the executable node functions by Proofs/ReplRefine.lean (merge loop = Repl.merge, accepting path, previous-entry guard, vote guard, leader appends), those to the code by E3. Tie and search: " + CLUSTER_NOTE + "; every Apply call of every incarnation is recorded and compared (term and bytes per index, order per state machine instance).",
+        "assumptions": ["static membership (C09) and no compaction (C10/C11) in the cluster theorem", "the replication-layer model abstracts match indices by acknowledgements tagged with the request's term (the code ignores replies to requests of another term: fix S6) and the persisted vote by the vote history (C08, C13)", "goroutines spawned by a section prepare their request before the node's next election section (DESIGN.md S26)"],
     },
     "C02": {
         "level": "proof",
@@ -84,14 +84,14 @@ PROPS = {
         "level": "proof",
         "lean_modules": ["RaftVerif.Properties.C03"],
         "engines": [E4("static"), E4("reads", 30, 300), E4D()],
-        "explanation": "PARTIAL proof. Machine-checked for every node state: a submission is registered under exactly the index of the entry appended for it (leader's term, submitted bytes); the apply loop answers a registration only with the log entry at that very index; every change of leadership drops all registrations; leader sections never truncate. Cross-node ordering/at-most-once depend on C01/C07 (not proved at cluster level). Tie and search: " + CLUSTER_NOTE + "; client histories with several overlapping clients: bytes, reported index/term, state machine result, at-most-once, real-time order.",
+        "explanation": "Proof in two layers. Node level, for every node state: a submission is registered under exactly the index of the entry appended for it (leader's term, submitted bytes); the apply loop answers a registration only with the log entry at that very index; every change of leadership drops all registrations; leader sections never truncate. Cluster level (C03_acknowledged_position_is_final, from the replication-layer safety proof of C01): what a leader has committed is, in every later state, comparable with every node's committed prefix, so the operation acknowledged at index i is the one every replica applies at i. PARTIAL in one respect: the real-time order between different clients is evaluated by the E4 history oracles, not by a theorem. Tie and search: " + CLUSTER_NOTE + "; client histories with several overlapping clients: bytes, reported index/term, state machine result, at-most-once, real-time order.",
         "assumptions": ["static membership"],
     },
     "C04": {
         "level": "proof",
         "lean_modules": ["RaftVerif.Properties.C04"],
         "engines": [E4("static"), E4("crash", 30, 300), E3_AE],
-        "explanation": "PARTIAL proof. Machine-checked for every node state: the commit loop only advances the commit index to an entry of the leader's current term stored by the leader plus a hasQuorum set of voters (match index), never backwards; match indices change only through replies to requests of the current term; the leader appends before it sends, a follower appends before it acknowledges (C06_accept). Durability across crashes additionally rests on C12 (proved) and on leader completeness (not proved at cluster level). Tie and search: " + CLUSTER_NOTE + "; at every acknowledgement the logs of all voters (running or crashed image) are inspected for the entry.",
+        "explanation": "Proof in two layers. Node level, for every node state: the commit loop only advances the commit index to an entry of the leader's current term stored by the leader plus a hasQuorum set of voters (match index), never backwards; match indices change only through replies to requests of the current term; the leader appends before it sends, a follower appends before it acknowledges (C06_accept). Cluster level (C04_committed_is_stable + C07_committed_in_later_leaders, replication-layer model): a committed prefix stays committed in every later state — across crashes of any nodes and leader changes — and is a prefix of every later leader's log. Durability of the bytes across a process crash is C12 (proved). Tie and search: " + CLUSTER_NOTE + "; at every acknowledgement the logs of all voters (running or crashed image) are inspected for the entry.",
         "assumptions": ["process-crash model; power loss outside (C12)", "static membership, snapshots off"],
     },
     "C05": {
@@ -105,7 +105,7 @@ PROPS = {
         "level": "proof",
         "lean_modules": ["RaftVerif.Properties.C07"],
         "engines": [E4("static"), E4("crash", 30, 300), E3_RV],
-        "explanation": "PARTIAL proof. Machine-checked for every node state: the vote restriction (lexicographic (last term, last index), for votes and prevotes), a new leader keeps its whole log and appends one no-op, leader sections never truncate. NOT proved: the cluster-level induction. Tie and search: exhaustive RequestVote domain (long-but-old vs short-but-new logs); " + CLUSTER_NOTE + "; at the first observation of every (term, leader) its log is compared with everything applied anywhere so far.",
+        "explanation": "Full proof on the replication-layer cluster model: C07_leader_completeness (a position acknowledged by a quorum in its own term is, with its whole prefix, in the log of the leader of every later term) and C07_committed_in_later_leaders, for all reachable states (static membership, no compaction). Node level, for every node state: the vote restriction (lexicographic (last term, last index), for votes and prevotes), a new leader keeps its whole log and appends one no-op, leader sections never truncate; Proofs/ReplRefine.lean ties the model's vote guard and appends to these functions. Tie and search: exhaustive RequestVote domain (long-but-old vs short-but-new logs); " + CLUSTER_NOTE + "; at the first observation of every (term, leader) its log is compared with everything applied anywhere so far.",
         "assumptions": ["static membership"],
     },
     "C09": {
@@ -180,9 +180,9 @@ PROPS = {
         "level": "proof",
         "lean_modules": ["RaftVerif.Properties.C06"],
         "engines": [E3_AE],
-        "explanation": "Handler-level theorems for every node state and every AppendEntries request (reject leaves log/commit/config unchanged; commit index monotone, never past prevIndex+|entries| nor leaderCommit; accepted request agrees with all its entries, keeps every non-conflicting entry, truncates only at a genuine conflict above prevIndex, no fatal, log stays well-formed). Tie: differential run of the real handler over real file-backed storage against the model's appendEntries on the C06 domain, plus the property's statements evaluated directly on what the real code did.",
+        "explanation": "C06_log_matching: in every reachable state of the replication-layer cluster model two logs that hold an entry of the same term at the same index are identical up to it; Proofs/ReplRefine.lean: the real merge loop and accepting path compute exactly the model's merge. Handler-level theorems for every node state and every AppendEntries request (reject leaves log/commit/config unchanged; commit index monotone, never past prevIndex+|entries| nor leaderCommit; accepted request agrees with all its entries, keeps every non-conflicting entry, truncates only at a genuine conflict above prevIndex, no fatal, log stays well-formed). Tie: differential run of the real handler over real file-backed storage against the model's appendEntries on the C06 domain, plus the property's statements evaluated directly on what the real code did.",
         "assumptions": ["C06_accept assumes a well-formed follower log (contiguous indices above the base, base <= lastIncludedIndex) and contiguous request entries from prevIndex+1; the other theorems have no hypothesis",
-                        "the global statement (same index and term => identical prefixes across nodes) is an invariant of the cluster model, see C01/C07"],
+                        "the global statement (C06_log_matching: same index and term => identical prefixes across nodes) is proved on the replication-layer cluster model (static membership, no compaction)"],
     },
     "C08": {
         "level": "proof",
